@@ -206,20 +206,30 @@ class FieldData:
                "Cannot rename the line to '{}'\n".format(value)+
                "ID not unique\n"+
                "Matching previous line: {}".format(str(other)))
-    if value is not None and (self.vlevel >= 3 or
-        (renaming_connected and self.vlevel >= 1)):
-      # (the new name of a connected line is read, and validated, when the
-      # line is registered again: an invalid one is refused before that)
-      self._field_or_default_datatype(fieldname, value)
-      gfapy.Field._validate_gfa_field(value, self._field_datatype(fieldname),
-          fieldname)
+    new_datatype = None
+    if value is not None:
+      datatype = self._field_datatype(fieldname)
+      if datatype is None:
+        # a tag which was removed and is assigned again (through its accessor):
+        # as for a new tag, the datatype is the default one for the value;
+        # it is recorded when the value is accepted
+        datatype = gfapy.Field._get_default_gfa_tag_datatype(value)
+        new_datatype = datatype
+      if self.vlevel >= 3 or (renaming_connected and self.vlevel >= 1):
+        # (the new name of a connected line is read, and validated, when the
+        # line is registered again: an invalid one is refused before that)
+        gfapy.Field._validate_gfa_field(value, datatype, fieldname)
     if renaming_connected:
       self._gfa._unregister_line(self)
     if value is None:
       if fieldname in self._data:
         self._data.pop(fieldname)
+      # the datatype of a tag is forgotten with the tag, as by delete()
+      self._datatype.pop(fieldname, None)
     else:
       self._data[fieldname] = value
+      if new_datatype is not None:
+        self._datatype[fieldname] = new_datatype
     if renaming_connected:
       self._gfa._register_line(self)
 
